@@ -4,7 +4,7 @@ JSON records.  Used by every check that looks at emitted programs.
 
 Run as a worker:  python pool.py <jobfile.json> <outfile.jsonl>
 """
-import copy, json, os, random, subprocess, sys, tempfile, time, traceback
+import re, copy, json, os, random, subprocess, sys, tempfile, time, traceback
 sys.path.insert(0, os.path.dirname(os.path.abspath(__file__)))
 import common
 
@@ -107,6 +107,7 @@ def activity_slot_problems(tree, canvases):
             for x in s[1]:
                 visit(x)
         elif s[0] == "SFor":
+            text_vars.update(re.findall(r"[A-Za-z_][A-Za-z0-9_]*", json.dumps(s[1])))
             visit(s[3])
         elif s[0] == "SIf":
             visit(s[2])
@@ -116,6 +117,7 @@ def activity_slot_problems(tree, canvases):
                 visit(s[5])
         elif s[0] == "SExpr" and s[1][0] == "EMethod" and s[1][2] == "addActivity":
             calls.append(s[1])
+    text_vars = set()            # names bound by for-loop targets
     visit(tree)
     probs = []
 
@@ -139,6 +141,8 @@ def activity_slot_problems(tree, canvases):
                 nm = name_of(el)
                 # a dynamically partitioned rank is displayed unsplit; its bottom-level variable carries the absolute coordinate
                 base = rid[:-1].rstrip("0123456789") if rid.endswith("I") and rid[:-1][-1:].isdigit() else rid
+                if rid.lower() not in text_vars and base.lower() + "0" not in text_vars:
+                    continue            # a projected rank (index math): no loop variable of its own, the slot holds an expression over other ranks
                 if nm is not None and nm != rid.lower() and nm != base.lower() + "0":
                     probs.append("tensor %s is displayed with ranks %r but its activity point is %s" % (t.name, ids, [name_of(x) for x in a[1]]))
                     break
@@ -272,6 +276,14 @@ def worker(job, outpath):
                             c2 = specs.compile_spec(d, mode)
                             rec["second_compile_same"] = bool(c2.ok and c2.text == rec["text"])
                         out.write(json.dumps(rec) + "\n")
+                continue
+            if gen == "g13m":
+                # fusion histories (C13's generator) pushed through the whole metrics pipeline
+                import c13
+                for i in range(count):
+                    d = c13.with_format(c13.make_spec(c13.gen_hist(rng, rng.choice([2, 3, 3, 4, 5]))))
+                    rec = make_record(gen, i, None, d, "metrics", 0, rng, hs, want_time=item.get("time", False))
+                    out.write(json.dumps(rec) + "\n")
                 continue
             if gen == "g7":
                 import gens7
